@@ -186,7 +186,7 @@ int main(int argc, char** argv) {
         if (cov) { A = coverage(r, out); B.container = 2; }
         else {
             auto kind = [&]() { int k = (int) r.below(100); return k < 50 ? 2 : k < 78 ? 1 : k < 88 ? 0 : 3; };
-            A = gen.geom(kind(), true, false);
+            A = r.chance(5) ? gen.nestedFrames() : gen.geom(kind(), true, false);
             gen.setPartner(A, r.chance(80) ? 55 : 0);
             B = r.chance(4) ? A : gen.geom(kind(), true, false);
             if (r.chance(50)) std::swap(A, B); }
@@ -204,6 +204,9 @@ int main(int argc, char** argv) {
                 double m = std::max(std::fabs(d.tx), std::fabs(d.ty)) + mag * gen.span; DX d2 = d; d2.noise = m * std::pow(10.0, -15.0 + 7.0 * r.unit()); B = A; out.count("near_coincident_copy");
                 tb = geomTokD(B, d2); }
             else tb = geomTokD(B, d); }
+        // a collection wrapped in a one-element collection is the same point set and must take the same route
+        auto wrap = [&](std::string& tk) { if (tk.rfind("0 ", 0) == 0 && r.chance(6)) { tk = "0 GC 1 " + tk.substr(2); out.count("wrapped_in_singleton_collection"); } };
+        if (!cov) { wrap(ta); wrap(tb); }
         std::unique_ptr<Geometry> ga, gb;
         try { ga = buildGeom(ta, gf); gb = buildGeom(tb, gf); } catch (...) { out.count("build_rejected"); continue; }
         if (GEOSisValid_r(h, (GEOSGeometry*) ga.get()) != 1 || GEOSisValid_r(h, (GEOSGeometry*) gb.get()) != 1) { out.count("invalid_skipped"); continue; }
